@@ -1954,7 +1954,8 @@ deep_inherit_list (object_t * ob)
   for (; cur < next && next < 256; cur++)
     {
       pr = plist[cur];
-      for (il2 = 0; il2 < (int) pr->num_inherited; il2++)
+      /* one program can bring up to 256 inherits of its own: the list is cut where plist[] ends */
+      for (il2 = 0; il2 < (int) pr->num_inherited && next < 256; il2++)
         plist[next++] = pr->inherit[il2].prog;
     }
 
@@ -1979,28 +1980,19 @@ array_t *
 inherit_list (object_t * ob)
 {
   array_t *ret;
-  program_t *pr, *plist[256];
-  int il, il2, next, cur;
+  program_t *pr = ob->prog;
+  int il, next;
 
-  plist[0] = ob->prog;
-  next = 1;
-  cur = 0;
-
-  pr = plist[cur];
-  for (il2 = 0; il2 < (int) pr->num_inherited; il2++)
-    {
-      plist[next++] = pr->inherit[il2].prog;
-    }
-
-  next--;			/* don't count the file itself */
+  /* a program has up to 256 direct inherits: taken straight from its inherit table,
+   * there is no fixed-size list to overrun */
+  next = (int) pr->num_inherited;
   ret = allocate_empty_array (next);
 
   for (il = 0; il < next; il++)
     {
-      pr = plist[il + 1];
       ret->item[il].type = T_STRING;
       ret->item[il].subtype = STRING_MALLOC;
-      ret->item[il].u.string = add_slash (pr->name);
+      ret->item[il].u.string = add_slash (pr->inherit[il].prog->name);
     }
   return ret;
 }
